@@ -7,7 +7,7 @@ set -u
 TIER="${1:-quick}"
 FILTER="${2:-}"
 cd "$(dirname "${BASH_SOURCE[0]}")/.."
-OUT=seeded/RESULTS.md
+OUT="${SEEDED_OUT:-seeded/RESULTS.md}"   # SEEDED_OUT: write a partial table elsewhere (see tools/merge_results.py)
 TMP=$(mktemp)
 echo "| seeded change | breaks | check | tier | result | first signature |" > "$TMP"
 echo "|---|---|---|---|---|---|" >> "$TMP"
